@@ -56,7 +56,8 @@ Step1(st, s, w, idx) ==
                              r == IMod(st.addr, unit)
                          IN [here EXCEPT !.addr = IF IIsZero(r) THEN st.addr ELSE IAdd(st.addr, ISub(unit, r))]
               [] s.k = "reserve" ->
-                    IF s.n % w # 0 THEN [here EXCEPT !.err = "unaligned-reserve"]
+                    IF s.n < 0 THEN [here EXCEPT !.err = "negative-reserve"]
+                    ELSE IF s.n % w # 0 THEN [here EXCEPT !.err = "unaligned-reserve"]
                     ELSE LET e == IAdd(st.addr, N(s.n))
                          IN [here EXCEPT !.addr = e,
                                          !.reserved = Append(@, <<st.addr, e>>),
